@@ -54,7 +54,10 @@ class BuiltinMixin(CallMixin):
             # other tasks run while the caller is suspended: havoc what the top-level contract's rely clause names,
             # re-assume its rely invariants; then either resume or deliver a cancellation (DESIGN §2.6)
             import asyncio
+            g = st.heap[st.ghost]
             self.apply_rely(st, ctx, line)
+            if "suspensions" in g:
+                g["suspensions"] = g["suspensions"] + 1
             if not self.feasible(st):
                 return []
             s2 = st.clone()
